@@ -359,7 +359,8 @@ fn rec_for(p: &PointSpec, serial: u32, flags_seed: u8) -> Rec {
             // one case in eight carries long octet strings: 238 octets is the longest that fits a 249-octet fragment
             // (4 header + 3 object header + 4 range + 238), 255 the longest there is
             if flags_seed % 8 == 0 && p.index % 3 == 0 {
-                let len = [100usize, 200, 238, 239, 255, 17][(p.index as usize / 3 + serial as usize) % 6];
+                let len = [100usize, 200, 238, 239, 255, 17]
+                    [(p.index as usize / 3 + serial as usize) % 6];
                 while r.bytes.len() < len {
                     r.bytes.push((r.bytes.len() as u8) ^ (serial as u8));
                 }
@@ -587,7 +588,11 @@ async fn run_case(case: &Case) -> CaseOut {
                 }
                 out.label("distracted_wait");
             }
-            Conf::Missing | Conf::NewRequest | Conf::Disconnect | Conf::Preempt | Conf::MissingDistracted(_) => {
+            Conf::Missing
+            | Conf::NewRequest
+            | Conf::Disconnect
+            | Conf::Preempt
+            | Conf::MissingDistracted(_) => {
                 aborted = true;
                 out.label("series_aborted");
                 match conf {
